@@ -229,14 +229,18 @@ func (m *Model) inline(e ast.Expr, depth int) ast.Expr {
 	if e == nil || depth > 12 {
 		return e
 	}
-	if r, ok := m.inlined[e]; ok {
+	memo := &m.inlined
+	if m.noExpand {
+		memo = &m.inlinedLocals
+	}
+	if r, ok := (*memo)[e]; ok {
 		return r
 	}
 	r := m.inline1(e, depth)
-	if m.inlined == nil {
-		m.inlined = map[ast.Expr]ast.Expr{}
+	if *memo == nil {
+		*memo = map[ast.Expr]ast.Expr{}
 	}
-	m.inlined[e] = r
+	(*memo)[e] = r
 	if r != e {
 		if _, isIdent := e.(*ast.Ident); !isIdent {
 			if tv, ok := m.Info.Types[e]; ok {
@@ -252,9 +256,21 @@ func (m *Model) inline(e ast.Expr, depth int) ast.Expr {
 				}
 			}
 		}
-		m.inlined[r] = r
+		(*memo)[r] = r
 	}
 	return r
+}
+
+// InlineLocals is Inline without the expansion of expression functions: only naming locals are resolved. For rules
+// that want to see which function a value comes from.
+func (m *Model) InlineLocals(e ast.Expr) ast.Expr {
+	if !canonLocals {
+		return e
+	}
+	saved := m.noExpand
+	m.noExpand = true
+	defer func() { m.noExpand = saved }()
+	return m.inline(e, 0)
 }
 
 func (m *Model) inline1(e ast.Expr, depth int) ast.Expr {
@@ -322,6 +338,9 @@ func (m *Model) inline1(e ast.Expr, depth int) ast.Expr {
 			return &ast.SliceExpr{X: a, Low: lo, High: hi, Max: mx, Slice3: x.Slice3}
 		}
 	case *ast.CallExpr:
+		if r := m.expandExprFunc(x, depth); r != nil {
+			return r
+		}
 		fun := m.inline(x.Fun, depth)
 		changed := fun != x.Fun
 		args := make([]ast.Expr, len(x.Args))
@@ -354,6 +373,174 @@ func (m *Model) inline1(e ast.Expr, depth int) ast.Expr {
 		if r := m.inline(x.X, depth); r != x.X {
 			return &ast.TypeAssertExpr{X: r, Type: x.Type}
 		}
+	}
+	return e
+}
+
+// Functions that merely name an expression. A call of a function of the model whose body is the single statement
+// `return <pure expression>` (no type parameters, no variadic parameter, not recursive) is replaced by that expression
+// with the parameters and the receiver replaced by the (inlined) arguments: `isEntityEvent(evt)` and
+// `evt == A || evt == B`, `newCursor()` and the cursor literal, `e.words()` and `[2]uint32{uint32(e.id), e.gen}` are the
+// same program to the rules. Cloned nodes get the type, object and selection information of the nodes they copy.
+func (m *Model) expandExprFunc(call *ast.CallExpr, depth int) ast.Expr {
+	return m.expandExprFuncArgs(call, depth, false)
+}
+
+// ExpandCall expands a call to an expression function like Inline does, but also when arguments have effects, provided
+// each parameter is mentioned at most once in the function's expression (so that no effect is duplicated). The result
+// names what the call computes from what; evaluation order is not preserved. nil if the call is not such a call.
+func (m *Model) ExpandCall(call *ast.CallExpr) ast.Expr {
+	if !canonLocals {
+		return nil
+	}
+	return m.expandExprFuncArgs(call, 0, true)
+}
+
+func (m *Model) expandExprFuncArgs(call *ast.CallExpr, depth int, loose bool) ast.Expr {
+	if depth > 8 || m.noExpand {
+		return nil
+	}
+	k, cal, _ := m.Callee(call)
+	if k != CallStatic || cal == nil || cal.Body == nil || cal.Sig == nil || cal.Lit != nil || len(cal.Body.List) != 1 {
+		return nil
+	}
+	if cal.Sig.Variadic() || cal.Sig.TypeParams().Len() > 0 || cal.Sig.RecvTypeParams().Len() > 0 || cal.Sig.Results().Len() != 1 || cal.Sig.Params().Len() != len(call.Args) {
+		return nil
+	}
+	rs, ok := cal.Body.List[0].(*ast.ReturnStmt)
+	if !ok || len(rs.Results) != 1 || !m.pureExpr(rs.Results[0]) {
+		return nil
+	}
+	if m.expanding == nil {
+		m.expanding = map[*Func]bool{}
+	}
+	if m.expanding[cal] {
+		return nil
+	}
+	// every argument must be pure too (it may be evaluated several times, or not at all, in the expression)
+	subst := map[types.Object]ast.Expr{}
+	for i, a := range call.Args {
+		ia := m.inline(a, depth+1)
+		if !m.pureExpr(ia) {
+			if !loose {
+				return nil
+			}
+			uses := 0
+			par := cal.Sig.Params().At(i)
+			ast.Inspect(rs.Results[0], func(n ast.Node) bool {
+				if id, ok := n.(*ast.Ident); ok && m.Info.Uses[id] == types.Object(par) {
+					uses++
+				}
+				return true
+			})
+			if uses > 1 {
+				return nil
+			}
+		}
+		subst[cal.Sig.Params().At(i)] = ia
+	}
+	if recv := cal.Sig.Recv(); recv != nil {
+		sel, ok := ast.Unparen(call.Fun).(*ast.SelectorExpr)
+		if !ok {
+			return nil
+		}
+		rx := m.inline(sel.X, depth+1)
+		if !m.pureExpr(rx) {
+			return nil
+		}
+		// pointer receiver called on an addressable value, or value receiver called on a pointer: the selector
+		// rules below (deref of &x) take care of the common forms; keep the expression as it is
+		subst[recv] = rx
+	}
+	m.expanding[cal] = true
+	body := m.inline(rs.Results[0], depth+1)
+	delete(m.expanding, cal)
+	out := m.cloneSubst(body, subst)
+	if tv, ok := m.Info.Types[call]; ok {
+		if _, has := m.Info.Types[out]; !has {
+			m.Info.Types[out] = tv
+		}
+	}
+	if _, isBin := ast.Unparen(out).(*ast.BinaryExpr); isBin {
+		if _, isParen := out.(*ast.ParenExpr); !isParen {
+			return &ast.ParenExpr{X: out}
+		}
+	}
+	return out
+}
+
+// cloneSubst copies e, replacing identifiers that denote the given objects; type information is carried over.
+func (m *Model) cloneSubst(e ast.Expr, subst map[types.Object]ast.Expr) ast.Expr {
+	if e == nil {
+		return nil
+	}
+	keep := func(old, nw ast.Expr) ast.Expr {
+		if tv, ok := m.Info.Types[old]; ok {
+			if _, has := m.Info.Types[nw]; !has {
+				m.Info.Types[nw] = tv
+			}
+		}
+		return nw
+	}
+	derefBase := func(x ast.Expr) ast.Expr {
+		if u, ok := ast.Unparen(x).(*ast.UnaryExpr); ok && u.Op == token.AND {
+			return u.X
+		}
+		return x
+	}
+	switch x := e.(type) {
+	case *ast.Ident:
+		if obj := m.Info.ObjectOf(x); obj != nil {
+			if r, ok := subst[obj]; ok {
+				if _, isBin := ast.Unparen(r).(*ast.BinaryExpr); isBin {
+					if _, isParen := r.(*ast.ParenExpr); !isParen {
+						return &ast.ParenExpr{X: r}
+					}
+				}
+				return r
+			}
+		}
+		return x
+	case *ast.BasicLit:
+		return x
+	case *ast.ParenExpr:
+		return keep(x, &ast.ParenExpr{X: m.cloneSubst(x.X, subst)})
+	case *ast.SelectorExpr:
+		nx := &ast.SelectorExpr{X: derefBase(m.cloneSubst(x.X, subst)), Sel: x.Sel}
+		if sel, ok := m.Info.Selections[x]; ok {
+			m.Info.Selections[nx] = sel
+		}
+		return keep(x, nx)
+	case *ast.StarExpr:
+		inner := m.cloneSubst(x.X, subst)
+		if u, ok := ast.Unparen(inner).(*ast.UnaryExpr); ok && u.Op == token.AND {
+			return u.X
+		}
+		return keep(x, &ast.StarExpr{X: inner})
+	case *ast.UnaryExpr:
+		return keep(x, &ast.UnaryExpr{Op: x.Op, X: m.cloneSubst(x.X, subst)})
+	case *ast.BinaryExpr:
+		return keep(x, &ast.BinaryExpr{X: m.cloneSubst(x.X, subst), Op: x.Op, Y: m.cloneSubst(x.Y, subst)})
+	case *ast.IndexExpr:
+		return keep(x, &ast.IndexExpr{X: m.cloneSubst(x.X, subst), Index: m.cloneSubst(x.Index, subst)})
+	case *ast.SliceExpr:
+		return keep(x, &ast.SliceExpr{X: m.cloneSubst(x.X, subst), Low: m.cloneSubst(x.Low, subst), High: m.cloneSubst(x.High, subst), Max: m.cloneSubst(x.Max, subst), Slice3: x.Slice3})
+	case *ast.CallExpr:
+		args := make([]ast.Expr, len(x.Args))
+		for i, a := range x.Args {
+			args[i] = m.cloneSubst(a, subst)
+		}
+		return keep(x, &ast.CallExpr{Fun: m.cloneSubst(x.Fun, subst), Args: args, Ellipsis: x.Ellipsis})
+	case *ast.KeyValueExpr:
+		return &ast.KeyValueExpr{Key: x.Key, Value: m.cloneSubst(x.Value, subst)}
+	case *ast.CompositeLit:
+		elts := make([]ast.Expr, len(x.Elts))
+		for i, a := range x.Elts {
+			elts[i] = m.cloneSubst(a, subst)
+		}
+		return keep(x, &ast.CompositeLit{Type: x.Type, Elts: elts})
+	case *ast.TypeAssertExpr:
+		return keep(x, &ast.TypeAssertExpr{X: m.cloneSubst(x.X, subst), Type: x.Type})
 	}
 	return e
 }
